@@ -181,6 +181,14 @@ func main() {
 			})
 			e.Strs("tokenProviderOrder", sorted(evs), "TokenList.getTokenProvider: order of the reader's two dictionary snapshots")
 		}
+		if f, err := r.Load("frac/inverser.go"); err != nil {
+			e.Missing("inverserSliceOrder", err)
+		} else if fd := f.Func("", "getSlice"); fd == nil {
+			e.Missing("inverserSliceOrder", "getSlice not found")
+		} else {
+			evs := callEvents(f, fd.Body, []string{"bytespool.AcquireLen", "unsafe.Slice", "clear"}, nil)
+			e.Strs("inverserSliceOrder", sorted(evs), "frac/inverser.go getSlice: the pooled buffer is zeroed before newInverser fills it (0 = LID not in the reader's mapping)")
+		}
 		if f, err := r.Load("storeapi/client.go"); err != nil {
 			e.Missing("inMemoryBulkOrder", err)
 		} else if fd := f.Func("inMemoryAPIClient", "Bulk"); fd == nil {
@@ -381,5 +389,5 @@ func main() {
 			e.Bool("trySetClearsUnlessSealing", total == 2 && inside == 2 && sealingDef,
 				"trySetSuicided: `sealing := f.isSealingState()` and the only field writes are sealed=nil, active=nil under `if !sealing`")
 		}
-	}, "frac/active_indexer.go", "frac/active_index.go", "frac/active.go", "frac/active_token_list.go", "storeapi/client.go", "proxy/bulk/indexer.go", "fracmanager/proxy_frac.go")
+	}, "frac/active_indexer.go", "frac/active_index.go", "frac/active.go", "frac/active_token_list.go", "frac/inverser.go", "storeapi/client.go", "proxy/bulk/indexer.go", "fracmanager/proxy_frac.go")
 }
